@@ -81,11 +81,23 @@ theorem C18_no_mutation_cells {h h' : Heap} (e : Extends h h') {r : Ref} (hr : r
 /-- **Reading a path after a copying set returns the value set** — the very object (`Ref`), for every heap
 (cyclic or not), every tree, existing and fresh paths (dict key, append, `SELF`), every value. -/
 theorem C18_get_set (strict : Bool) {h : Heap} {t v : Ref} {p : Path} {h' : Heap} {t' : Ref}
-    (hp : PlainSelf p) (hs : copyAndSet strict h t (.path p) v = (h', .ok t')) :
+    (hp : PlainSelf p) (hs : copyAndSet strict h t (.path p) v = (h', .ok t')) (hnd : NoNd h' t' p) :
     getItem h' t' (.path p) = .ok (.one v) := by
   rw [copyAndSet_path] at hs
-  have := setPath_get_set strict p h t v h' t' hp hs h' (fun _ _ _ => rfl)
+  have := setPath_get_set strict p h t v h' t' hp hs h' (fun _ _ _ => rfl) hnd
   simp [getItem, this, Except.map]
+
+/-- The side condition `NoNd` of `C18_get_set` (reading the path back does not index **into** an ndarray —
+such reads create new objects and obey the by-value law `C18_nd_get_set`) holds whenever the path could be
+read in the original tree; in particular for every tree without ndarray nodes on the path. -/
+theorem C18_get_set_existing (strict : Bool) {h : Heap} {t v : Ref} {p : Path} {h' : Heap} {t' : Ref} {x : Ref}
+    (hp : PlainSelf p) (hc : Closed h) (ht : t < h.size) (hg : get h t p = .ok x)
+    (hs : copyAndSet strict h t (.path p) v = (h', .ok t')) :
+    getItem h' t' (.path p) = .ok (.one v) := by
+  have hs' := hs
+  rw [copyAndSet_path] at hs'
+  exact C18_get_set strict hp hs
+    (setPath_noNd_of_get strict p h t v h' t' (· < h.size) hp hc.region ht ⟨x, hg⟩ hs' h' (fun _ _ _ => rfl))
 
 /-! ## C18_frame -/
 
@@ -250,6 +262,8 @@ theorem C18_items_terminates {h : Heap} {root : Ref} {n : Node} (w : WF h root) 
           exact List.mem_of_getElem? hi
         | leaf v => simp [Node.children] at hkc
         | null => simp [Node.children] at hkc
+        | nd _ _ _ => simp [Node.children] at hkc
+        | buf _ => simp [Node.children] at hkc
       generalize n.children = kcs at hmemrefs
       induction kcs with
       | nil => exact ⟨0, fun _ hkc => by cases hkc⟩
@@ -281,11 +295,20 @@ theorem C18_items_terminates {h : Heap} {root : Ref} {n : Node} (w : WF h root) 
 other (each later path w.r.t. each earlier one), on a heap without dangling references. -/
 theorem C18_update_get (strict : Bool) {h : Heap} {t : Ref} {other : List (Path × Ref)} {h' : Heap} {t' : Ref}
     (hc : Closed h) (ht : t < h.size) (hv : ∀ kv ∈ other, kv.2 < h.size) (hp : ∀ kv ∈ other, PlainSelf kv.1)
-    (hpw : other.Pairwise (fun a b => Diverge b.1 a.1))
+    (hpw : other.Pairwise (fun a b => Diverge b.1 a.1)) (hnd : NoNdSeq strict h t other)
     (hs : copyAndUpdate strict h t other = (h', .ok t')) : ∀ kv ∈ other, get h' t' kv.1 = .ok kv.2 := by
   cases other with
   | nil => intro kv hkv; cases hkv
-  | cons kv0 kvs => exact setMany_get strict _ h t h' t' hc ht hv hp hpw hs
+  | cons kv0 kvs => exact setMany_get strict _ h t h' t' hc ht hv hp hpw hnd hs
+
+/-- The side condition `NoNdSeq` (no read-back indexes into an ndarray) holds when every updated path could
+be read in the original tree and the paths pairwise leave each other. -/
+theorem C18_update_get_existing (strict : Bool) {h : Heap} {t : Ref} {other : List (Path × Ref)} {h' : Heap}
+    {t' : Ref} (hc : Closed h) (ht : t < h.size) (hv : ∀ kv ∈ other, kv.2 < h.size)
+    (hp : ∀ kv ∈ other, PlainSelf kv.1) (hpw : other.Pairwise (fun a b => Diverge b.1 a.1))
+    (hpw' : other.Pairwise (fun a b => Diverge a.1 b.1)) (hg : ∀ kv ∈ other, ∃ x, get h t kv.1 = .ok x)
+    (hs : copyAndUpdate strict h t other = (h', .ok t')) : ∀ kv ∈ other, get h' t' kv.1 = .ok kv.2 :=
+  C18_update_get strict hc ht hv hp hpw (NoNdSeq_of_gets strict other h t hc ht hv hp hpw' hg) hs
 
 /-- **`copy_and_update`: every path that leaves all updated paths reads as before.** -/
 theorem C18_update_frame (strict : Bool) {h : Heap} {t : Ref} {other : List (Path × Ref)} {h' : Heap} {t' : Ref}
@@ -302,6 +325,7 @@ theorem C18_multiset_get (strict : Bool) {h : Heap} {t values : Ref} {ks : List 
     (hc : Closed h) (ht : t < h.size) (hvals : ∀ v ∈ valuesOf h values, v < h.size)
     (hal : ¬ (ks.length == 1 && (valuesOf h values).length > 1) = true) (hlen : ks.length = (valuesOf h values).length)
     (hp : ∀ k ∈ ks, PlainSelf k) (hpw : ks.Pairwise (fun a b => Diverge b a))
+    (hnd : NoNdSeq strict h t (ks.zip (valuesOf h values)))
     (hs : copyAndSet strict h t (.multi ks) values = (h', .ok t')) :
     ∀ kv ∈ ks.zip (valuesOf h values), get h' t' kv.1 = .ok kv.2 := by
   simp only [copyAndSet, setItem] at hs
@@ -315,10 +339,10 @@ theorem C18_multiset_get (strict : Bool) {h : Heap} {t values : Ref} {ks : List 
   | ok d =>
     simp [finishSet] at hs
     obtain ⟨rfl, rfl⟩ := hs
-    refine setMany_get strict _ h t h1 d hc ht ?_ ?_ ?_ hsm
+    refine setMany_get strict _ h t h1 d hc ht ?_ ?_ ?_ hnd hsm
     · intro kv hkv; exact hvals kv.2 (List.of_mem_zip hkv).2
     · intro kv hkv; exact hp kv.1 (List.of_mem_zip hkv).1
-    · clear hsm hal hlen this hvals hp
+    · clear hsm hal hlen this hvals hp hnd
       generalize valuesOf h values = vals
       induction ks generalizing vals with
       | nil => simp
